@@ -111,6 +111,19 @@ def keys(ctx: Ctx) -> List[Ob]:
         rk: Set[str] = set()
         for rq in rqs:
             rk |= _str_keys_read(m.func(rq))
+        # ... and what the loader hands the entries to: new (non-reference) functions of the loader's class family that it reaches
+        # (a per-entry builder extracted from the loop and overridden in the typed tree)
+        from ..known_funcs import KNOWN_FUNCS as _KF
+
+        fam_cls = "TypedTree" if what == "TypedTree" else "Tree"
+        for g_ in m.all_funcs():
+            if f"{g_.top.module}:{g_.top.qualname}" in _KF or g_.parent is not None:
+                continue
+            if g_.cls and (g_.cls == fam_cls or (fam_cls == "Tree" and g_.cls == "Tree")) and any(
+                    isinstance(c_.func, ast.Attribute) and c_.func.attr == g_.name for rq in rqs for c_ in ast.walk(m.func(rq).node) if isinstance(c_, ast.Call)) \
+                    or (g_.cls == fam_cls and any(isinstance(c_, ast.Call) and isinstance(c_.func, ast.Attribute) and c_.func.attr == g_.name
+                                                  for c_ in ast.walk(m.func("Tree._from_list").node))):
+                rk |= _str_keys_read(g_)
         if not wk:
             raise AnalysisError(f"{wq}: no entry keys found")
         for k in sorted(wk):
